@@ -1,14 +1,21 @@
 ------------------------------ MODULE MC_AmSim ------------------------------
 EXTENDS AmSim
 S1 == << <<"set", "a", 1>>, <<"get", "x">>, <<"get", "y">>, <<"set", "b", 1>>, <<"get", "x">>, <<"get", "y">>,
-         <<"tick">>, <<"get", "r">>, <<"get", "q">>, <<"time">>, <<"set", "a", 0>>, <<"get", "y">>, <<"tick">>, <<"get", "r">>,
-         <<"delay", 7>>, <<"time">>, <<"get", "r">>, <<"get", "y">> >>
+         <<"tick">>, <<"get", "r">>, <<"get", "q">>, <<"get", "rq">>, <<"get", "mem">>, <<"time">>, <<"set", "a", 0>>, <<"get", "y">>, <<"tick">>, <<"get", "r">>,
+         <<"get", "mem">>, <<"delay", 7>>, <<"time">>, <<"get", "r">>, <<"get", "q">>, <<"get", "rq">>, <<"get", "mem">>, <<"get", "y">> >>
 S2 == << <<"delay", 3>>, <<"set", "b", 1>>, <<"get", "y">>, <<"delay", 12>>, <<"time">>, <<"get", "r">>,
-         <<"set", "a", 1>>, <<"set", "b", 0>>, <<"tick">>, <<"time">>, <<"get", "r">>, <<"tick">>, <<"get", "r">>, <<"get", "q">>, <<"get", "x">> >>
+         <<"set", "a", 1>>, <<"set", "b", 0>>, <<"tick">>, <<"time">>, <<"get", "r">>, <<"tick">>, <<"get", "r">>, <<"get", "q">>, <<"get", "rq">>, <<"get", "mem">>, <<"get", "x">> >>
 S3 == << <<"tick">>, <<"tick">>, <<"set", "a", 1>>, <<"delay", 5>>, <<"get", "r">>, <<"delay", 5>>, <<"get", "r">>,
-         <<"time">>, <<"set", "b", 1>>, <<"tick">>, <<"get", "r">>, <<"get", "q">>, <<"get", "y">> >>
-AllScripts == {S1, S2, S3}
-OneScript == {S1}
+         <<"time">>, <<"set", "b", 1>>, <<"tick">>, <<"get", "r">>, <<"get", "y">> >>
+(* two testbenches: the first writes right after the edge, the second reads at the same instant and must see it *)
+T1 == << <<"set", "a", 1>>, <<"tick">>, <<"get", "r">>, <<"set", "b", 1>>, <<"tick">>, <<"get", "q">>, <<"get", "mem">>, <<"set", "a", 0>>,
+         <<"delay", 10>>, <<"set", "b", 0>>, <<"get", "y">> >>
+T2 == << <<"tick">>, <<"get", "y">>, <<"get", "x">>, <<"tick">>, <<"get", "y">>, <<"set", "a", 1>>, <<"delay", 10>>, <<"get", "y">>,
+         <<"time">>, <<"get", "q">>, <<"get", "rq">> >>
+AllScriptSets == {<<S1>>, <<S2>>, <<S3>>, <<T1, T2>>, <<T2, T1>>}
+QuickScriptSets == {<<S1>>, <<S2>>, <<T1, T2>>, <<T2, T1>>}
+OneScriptSet == {<<S1>>}
+TwoTbSets == {<<T1, T2>>}
 AllFns == 0..15
 FewFns == {6, 9, 8}
 CombFns == {1, 6, 8, 9, 10, 14}
